@@ -1,0 +1,158 @@
+//! Verification hook (feature `verif_hooks`): exposes the leaves and the final graph that
+//! `generate` builds as plain data. Inert unless [`capture`] is used.
+
+use std::cell::RefCell;
+
+use proc_macro2::TokenStream;
+
+use crate::graph::{Graph, GraphError};
+use crate::leaf::VariantKind;
+
+/// One leaf (pattern) as handed to the graph.
+#[derive(Clone, Debug, PartialEq, Eq)]
+pub struct LeafDump {
+    /// `#[token(..)]` / `#[regex(..)]` rendering of the pattern (source literal as written)
+    pub display: String,
+    /// Source literal token as written
+    pub source: String,
+    /// Priority used for disambiguation
+    pub priority: usize,
+    /// `None` for skips, otherwise the variant name
+    pub variant: Option<String>,
+    /// Whether the variant holds a value
+    pub has_value: bool,
+    /// Whether a callback is attached
+    pub has_callback: bool,
+}
+
+/// One state of the final graph.
+#[derive(Clone, Debug, PartialEq, Eq, Default)]
+pub struct StateDump {
+    /// Early accept leaf
+    pub early: Option<usize>,
+    /// Late accept leaf
+    pub accept: Option<usize>,
+    /// Byte edges: inclusive ranges and target state
+    pub normal: Vec<(Vec<(u8, u8)>, usize)>,
+    /// End of input edge
+    pub eoi: Option<usize>,
+}
+
+/// Graph error as plain data.
+#[derive(Clone, Debug, PartialEq, Eq)]
+pub enum GraphErrorDump {
+    /// No universal start state
+    NoUniversalStart,
+    /// Leaf matches the empty string
+    EmptyMatch(usize),
+    /// Leaves matching simultaneously at the same priority
+    Disambiguation(Vec<usize>),
+}
+
+/// The graph right after construction.
+#[derive(Clone, Debug, PartialEq, Eq, Default)]
+pub struct GraphDump {
+    /// Leaves in graph order
+    pub leaves: Vec<LeafDump>,
+    /// States
+    pub states: Vec<StateDump>,
+    /// Root state
+    pub root: usize,
+    /// Graph errors
+    pub errors: Vec<GraphErrorDump>,
+}
+
+/// Result of [`capture`].
+#[derive(Clone, Debug)]
+pub struct Capture {
+    /// What `generate` returned, rendered
+    pub output: String,
+    /// The graph, when one was built
+    pub graph: Option<GraphDump>,
+}
+
+thread_local! {
+    static SINK: RefCell<Option<Option<GraphDump>>> = const { RefCell::new(None) };
+}
+
+struct Disarm;
+
+impl Drop for Disarm {
+    fn drop(&mut self) {
+        SINK.with(|sink| *sink.borrow_mut() = None);
+    }
+}
+
+/// Run [`crate::generate`] and return its output together with the graph it built.
+pub fn capture(input: TokenStream) -> Capture {
+    SINK.with(|sink| *sink.borrow_mut() = Some(None));
+    let _disarm = Disarm;
+    let output = crate::generate(input).to_string();
+    let graph = SINK.with(|sink| sink.borrow_mut().take()).flatten();
+    Capture { output, graph }
+}
+
+pub(crate) fn record_graph(graph: &Graph) {
+    SINK.with(|sink| {
+        let mut sink = sink.borrow_mut();
+        let Some(slot) = sink.as_mut() else { return };
+
+        let leaves = graph
+            .leaves()
+            .iter()
+            .map(|leaf| {
+                let (variant, has_value) = match &leaf.kind {
+                    VariantKind::Unit(ident) => (Some(ident.to_string()), false),
+                    VariantKind::Value(ident, _) => (Some(ident.to_string()), true),
+                    VariantKind::Skip => (None, false),
+                };
+                LeafDump {
+                    display: leaf.pattern.to_string(),
+                    source: leaf.pattern.source().to_string(),
+                    priority: leaf.priority,
+                    variant,
+                    has_value,
+                    has_callback: leaf.callback.is_some(),
+                }
+            })
+            .collect();
+
+        let states = graph
+            .iter_states()
+            .map(|state| {
+                let data = graph.get_state(state);
+                StateDump {
+                    early: data.state_type.early.map(|leaf| leaf.0),
+                    accept: data.state_type.accept.map(|leaf| leaf.0),
+                    normal: data
+                        .normal
+                        .iter()
+                        .map(|(bc, next)| {
+                            let ranges = bc.ranges.iter().map(|r| (*r.start(), *r.end())).collect();
+                            (ranges, next.index())
+                        })
+                        .collect(),
+                    eoi: data.eoi.map(|next| next.index()),
+                }
+            })
+            .collect();
+
+        let errors = graph
+            .errors()
+            .map(|error| match error {
+                GraphError::NoUniversalStart => GraphErrorDump::NoUniversalStart,
+                GraphError::EmptyMatch(leaf) => GraphErrorDump::EmptyMatch(leaf.0),
+                GraphError::Disambiguation(leaves) => {
+                    GraphErrorDump::Disambiguation(leaves.iter().map(|leaf| leaf.0).collect())
+                }
+            })
+            .collect();
+
+        *slot = Some(GraphDump {
+            leaves,
+            states,
+            root: graph.root().index(),
+            errors,
+        });
+    });
+}
